@@ -403,6 +403,19 @@ def dnskey_side_condition(ctx, report, sites, funcs):
         report.undecided.append('DnsRecordDnskey: dependency tables not available for the NotImplementedError side condition')
         return
 
+    from ..codecs import dnskey_record
+    ev = dnskey_record(ctx)
+    if ev['evaluated']:
+        # decided by running _parse on one record per algorithm code of the registry and on keys of several sizes (sa/codecs.py):
+        # whatever the dispatch looks like - an if chain, a table of method names - only the documented errors may come out
+        report.count('C02.R1', ev['runs'])
+        for name, text in sorted(ev['unhandled'].items()):
+            report.add('C02.R1', 'cryptoparser/dnsrec/record.py:DnsRecordDnskey.parse_key@unhandled[%s]' % name, text)
+        return
+    report.add('C02.R1', 'cryptoparser/dnsrec/record.py:DnsRecordDnskey.parse_key@evaluation',
+               'which key formats parse_key handles could not be decided: DnsRecordDnskey left the subset the evaluation understands (%s)' % ev['why'])
+    return
+
     def names_compared(fname, root):
         f = funcs.get(fname)
         out = set()
@@ -654,6 +667,13 @@ def table_shape(ctx, report):
                     if ('isinstance(%s,' % prefix in t and 'not isinstance' not in t or '%s is not None' % prefix in t) and \
                             any(x is n for b in g.body for x in ast.walk(b)):
                         guarded = True
+            if not guarded and f.cls is not None and f.cls.name == 'DnsRecordDnskey' and f.name != '__attrs_post_init__':
+                # the guard may sit in the caller: decided by running the record parser on every algorithm code of the registry,
+                # the members whose column is null included (sa/codecs.py dnskey_record; an AttributeError there is C02.R1's finding)
+                from ..codecs import dnskey_record
+                if dnskey_record(ctx)['evaluated']:
+                    report.sample({'rule': 'C02.R5', 'site': f.construct, 'column': col, 'verdict': 'decided by evaluation over every member of the registry'})
+                    continue
             if not guarded:
                 who = '; '.join('%s.%s' % (e, '/'.join(ms[:3])) for e, ms in list(cols[col].items())[:3])
                 report.add('C02.R5', '%s@deref[%s]' % (f.construct, ast.unparse(n)),
